@@ -261,7 +261,7 @@ def check(rep, prop, tier, seed):
     obligations = [("checkC02_vss", "checkC02 Spec.vss Gen.vss = true", "by decide +kernel"),
                    ("checkC03_vss", "checkC03 Spec.vss Gen.vss = true", "by decide +kernel"),
                    ("algorithmic_functions_are_the_modelled_ones",
-                    "Gen.vss.algorithmic.map (·.1) = [\"Avtp_Vss_Pad\", \"Avtp_Vss_GetVssPath\", \"Avtp_Vss_CalcVssPathLength\", "
+                    "Gen.vss.algorithmic.map (·.1) = [\"Vss_ReadBe16\", \"Vss_ReadBe32\", \"Vss_ReadBe64\", \"Vss_WriteBe16\", \"Vss_WriteBe32\", \"Vss_WriteBe64\", \"Avtp_Vss_Pad\", \"Avtp_Vss_GetVssPath\", \"Avtp_Vss_CalcVssPathLength\", "
                     "\"Avtp_Vss_GetVSSDataStringArrayLength\", \"Avtp_Vss_DeserializeStringArray\", \"Avtp_Vss_GetVssData\", "
                     "\"Avtp_Vss_SetVssPath\", \"Avtp_Vss_SetVssData\", \"Avtp_Vss_SerializeStringArray\"]", "by decide")]
     general = []
